@@ -497,8 +497,30 @@ fn helper_runtime() -> &'static tokio::runtime::Runtime {
 
 struct ClockHooks {
     start: tokio::time::Instant,
+    /// H8: what happens before an acquisition of one of the session's asynchronous locks. Derived from the
+    /// schedule seed (no plan field, so older replay files stay valid): 0 = nothing (as without the hook),
+    /// 1 = a plain yield before one acquisition in four, 2 = a simulated wait of 1..200 ms before one in three
+    /// (other tasks whose store calls complete meanwhile run first), 3 = a wait before every acquisition.
+    lock_mode: u64,
+    lock_rng: Mutex<Rng>,
+    st: Arc<Mutex<StoreState>>,
 }
 impl utils::verif::Hooks for ClockHooks {
+    fn delay(&self, label: &'static str) -> Option<Duration> {
+        if label != "tsync:mutex_lock" || self.lock_mode == 0 {
+            return None;
+        }
+        let mut r = self.lock_rng.lock().unwrap();
+        let d = match self.lock_mode {
+            1 => r.chance(1, 4).then_some(Duration::ZERO),
+            2 => r.chance(1, 3).then(|| Duration::from_millis(r.range(1, 200))),
+            _ => Some(Duration::from_millis(r.range(1, 50))),
+        };
+        if d.is_some() {
+            self.st.lock().unwrap().lock_delays += 1;
+        }
+        d
+    }
     fn now_secs(&self) -> Option<u64> {
         Some(1_750_000_000 + self.start.elapsed().as_secs())
     }
@@ -597,7 +619,13 @@ pub fn run_world(plan: &Plan, faults: &[FaultSpec], trace: bool) -> (World, Scra
     let plan2 = plan.clone();
     let (sessions, configs, sim_ms) = rt.block_on(async move {
         let start = tokio::time::Instant::now();
-        let prev = utils::verif::install(Some(Arc::new(ClockHooks { start })));
+        let lock_mode = mix(&[plan2.schedule_seed, 0x4838]) % 4;
+        let prev = utils::verif::install(Some(Arc::new(ClockHooks {
+            start,
+            lock_mode,
+            lock_rng: Mutex::new(Rng::new(mix(&[plan2.schedule_seed, 0x4839]))),
+            st: st.clone(),
+        })));
         let mut outs = Vec::new();
         let mut configs = Vec::new();
         for (si, ss) in plan2.sessions.iter().enumerate() {
@@ -1374,6 +1402,7 @@ pub fn evaluate(ctx: &EvalCtx, w: &World, rep: &mut RunReport) {
         rep.count(&format!("fault:{k}"), *v);
     }
     rep.count("fault:fired_while_another_call_in_flight", st.fault_overlapped);
+    rep.count("fault:session_lock_acquisition_delayed", st.lock_delays);
     rep.count("fault:store_call_delayed(latency_mode>0)", (ctx.plan.latency_mode > 0) as u64 * (st.puts.len() + st.shards.len()) as u64);
     let reordered = st.return_order.windows(2).any(|w| w[0] > w[1] && w[0] < 1_000_000 && w[1] < 1_000_000);
     rep.count("probe:puts_completed_out_of_order", reordered as u64);
